@@ -56,7 +56,7 @@ func maxGoroutineID() int64 {
 }
 
 // c10ClientFrames: cache functions in which a client can be parked on a channel
-var c10ClientFrames = []string{").policyNewEntry", ").policyUpdateEntry", ").Delete", ").DeleteWithSecondary", ").Wait", ").Set", ").setInternal", ").toPolicy"}
+var c10ClientFrames = []string{").sendEvent", ").policyNewEntry", ").policyUpdateEntry", ").Delete", ").DeleteWithSecondary", ").Wait", ").Set", ").setInternal", ").toPolicy"}
 
 func c10Scenario(r *Run, idx int, cs c10Case) {
 	rng := r.Rng(int64(10000 + idx))
@@ -221,13 +221,25 @@ func c10Scenario(r *Run, idx int, cs c10Case) {
 		}
 		stuck := map[string]int{}
 		for _, g := range gs {
-			if g.ID <= hiWater || !(g.State == "chan send" || g.State == "chan receive") {
+			// parked in a channel operation (a select over a channel and the cancellation counts: the
+			// repaired code waits that way; with maintenance gone and the cache closed it should not wait at all)
+			if g.ID <= hiWater || !(g.State == "chan send" || g.State == "chan receive" || g.State == "select") {
 				continue
 			}
 			top := g.topTheineFrame()
 			for _, f := range c10ClientFrames {
 				if strings.HasSuffix(top, f) {
-					stuck[strings.TrimPrefix(f, ").")+" ("+g.State+")"]++
+					name := strings.TrimPrefix(f, ").")
+					if name == "sendEvent" {
+						for _, caller := range []string{"Wait", "policyNewEntry", "policyUpdateEntry", "DeleteWithSecondary", "Delete"} {
+							if g.has(")." + caller + "(") {
+								name = caller
+								break
+							}
+						}
+					}
+					stuck[name+" ("+g.State+")"]++
+					break
 				}
 			}
 		}
